@@ -78,7 +78,19 @@ def ecBaseMult (k : Int) : Outcome ECPoint :=
   | some r => .ok r
   | none => .panic "scalar-base-mult-identity"
 
+/-- `crypto.UnFlattenECPoints` (with the curve check): `none` = error -/
+def unflatten : List Nat → Option (List ECPoint)
+  | [] => some []
+  | [_] => none
+  | x :: y :: rest =>
+    match C.ecNew x y, unflatten rest with
+    | some p, some ps => some (p :: ps)
+    | _, _ => none
+
 end Curve
+
+/-- `crypto.FlattenECPoints` -/
+def flatten (ps : List ECPoint) : List Nat := ps.flatMap fun p => [p.1, p.2]
 
 /-- `(*ECPoint).Equals` on non-nil points: coordinate comparison -/
 def ecEquals (a b : ECPoint) : Bool := a.1 == b.1 && a.2 == b.2
@@ -176,6 +188,11 @@ def curve : Curve Pt where
 
 /-- `8⁻¹ mod l` as `crypto.eightInv` -/
 def eightInv : Nat := (modInverse 8 l).getD 0
+
+/-- `(*ECPoint).EightInvEight`: multiply by 8, then by `8⁻¹ mod l` -/
+def eightInvEight (a : ECPoint) : Outcome ECPoint := do
+  let e ← curve.ecScalarMult a 8
+  curve.ecScalarMult e eightInv
 
 end Ed25519
 
